@@ -1248,3 +1248,147 @@ def _modepad(name, fnname, mode, nd):
 _modepad("reflection_pad1d", "aten_reflection_pad1d", "reflect", 1)
 _modepad("reflection_pad2d", "aten_reflection_pad2d", "reflect", 2)
 _modepad("replication_pad2d", "aten_replication_pad2d", "replicate", 2)
+
+
+# ---- second attribute-helper family: unfold, upsample, col2im, im2col ----------------------------
+
+@fam("unfold", "attr", ["aten::unfold"])
+class _Unfold:
+    @staticmethod
+    def gen(rng):
+        s = rshape(rng, 1, 3, zero_p=0.0)
+        r = len(s)
+        d = rdim(rng, r, 0.03)
+        n = s[d % r] if -r <= d < r else 3
+        size = rng.randint(0, n) if rng.random() < 0.93 else n + 1
+        return dict(shape=s, dtype="f32", dim=d, size=size, step=rng.choice([1, 1, 2, 3, 5]))
+
+    @staticmethod
+    def line(c):
+        return f"unfold {sh(c['shape'])} {c['dim']} {c['size']} {c['step']}"
+
+    @staticmethod
+    def call(c):
+        return [fdata(c["shape"]), c["dim"], c["size"], c["step"]], {}
+
+    @staticmethod
+    def torch(c, t):
+        return t.tensor(fdata(c["shape"])).unfold(c["dim"], c["size"], c["step"])
+
+
+def _scale_f(n):
+    return n / 2.0
+
+
+def _ups(name, fnname, k, mode, linear):
+    class _U:
+        @staticmethod
+        def gen(rng):
+            sp = [rng.randint(1, 5) for _ in range(k)]
+            shape = [rng.choice([1, 2]), rng.choice([1, 2, 3])] + sp
+            use_scales = rng.random() < 0.5
+            if use_scales:
+                sc = [rng.choice([1, 2, 3, 4, 5]) for _ in range(k)]
+                out = [max((sp[i] * sc[i]) // 2, 0) for i in range(k)]
+                if any(o == 0 for o in out):
+                    sc = [max(x, 2) for x in sc]
+                    out = [(sp[i] * sc[i]) // 2 for i in range(k)]
+            else:
+                sc = None
+                out = [rng.randint(1, 9) for _ in range(k)]
+            ac = linear and rng.random() < 0.5
+            ctm = ("align_corners" if ac else "half_pixel") if linear else "asymmetric"
+            return dict(shape=shape, dtype="f32", out=out, sc=sc, mode=mode, ctm=ctm, ac=ac, k=k)
+
+        @staticmethod
+        def line(c):
+            # aten_upsample_bilinear2d ignores scales_h / scales_w (see the NOTE in nn.py): always the output_size path
+            sc = None if linear else c["sc"]
+            return f"upsample {sh(c['shape'])} {ints(c['out'])} {'N' if sc is None else ints(sc)} {c['mode']} {c['ctm']}"
+
+        @staticmethod
+        def call(c):
+            scs = [None] * k if c["sc"] is None else [_scale_f(x) for x in c["sc"]]
+            if linear:
+                return [fdata(c["shape"]), list(c["out"]), c["ac"], *scs], {}
+            return [fdata(c["shape"]), list(c["out"]), *scs], {}
+
+        @staticmethod
+        def torch(c, t):
+            scs = [None] * k if c["sc"] is None else [_scale_f(x) for x in c["sc"]]
+            op_ = getattr(t.ops.aten, name).default
+            if linear:
+                return op_(t.tensor(fdata(c["shape"])), list(c["out"]), c["ac"], *scs)
+            return op_(t.tensor(fdata(c["shape"])), list(c["out"]), *scs)
+
+        @staticmethod
+        def branch(c):
+            return "scales" if c["sc"] is not None else "output_size"
+    _U.fnname = fnname
+    return fam(name, "attr", ["aten::" + name])(_U)
+
+
+_ups("upsample_nearest1d", "aten_upsample_nearest1d", 1, "nearest", False)
+_ups("upsample_nearest2d", "aten_upsample_nearest2d", 2, "nearest", False)
+_ups("upsample_nearest3d", "aten_upsample_nearest3d", 3, "nearest", False)
+_ups("upsample_bilinear2d", "aten_upsample_bilinear2d", 2, "linear", True)
+
+
+def _gen_fold(rng):
+    kern = [rng.randint(1, 3), rng.randint(1, 3)]
+    dil = [rng.choice([1, 1, 2]), rng.choice([1, 1, 2])]
+    pad = [rng.randint(0, 2), rng.randint(0, 2)]
+    st = [rng.randint(1, 3), rng.randint(1, 3)]
+    hw = [rng.randint(3, 7), rng.randint(3, 7)]
+    for i in range(2):
+        while hw[i] + 2 * pad[i] - dil[i] * (kern[i] - 1) - 1 < 0:
+            hw[i] += 1
+    blocks = [(hw[i] + 2 * pad[i] - dil[i] * (kern[i] - 1) - 1) // st[i] + 1 for i in range(2)]
+    return kern, dil, pad, st, hw, blocks
+
+
+@fam("col2im", "attr", ["aten::col2im"])
+class _Col2Im:
+    @staticmethod
+    def gen(rng):
+        kern, dil, pad, st, hw, blocks = _gen_fold(rng)
+        ch = rng.choice([1, 2])
+        return dict(shape=[rng.choice([1, 2]), ch * kern[0] * kern[1], blocks[0] * blocks[1]], dtype="f32",
+                    out=hw, ks=kern, dil=dil, pad=pad, st=st)
+
+    @staticmethod
+    def line(c):
+        return f"col2im {sh(c['shape'])} {ints(c['out'])} {ints(c['ks'])} {ints(c['dil'])} {ints(c['pad'])} {ints(c['st'])}"
+
+    @staticmethod
+    def call(c):
+        return [fdata(c["shape"]), list(c["out"]), list(c["ks"]), list(c["dil"]), list(c["pad"]), list(c["st"])], {}
+
+    @staticmethod
+    def torch(c, t):
+        return t.nn.functional.fold(t.tensor(fdata(c["shape"])), tuple(c["out"]), tuple(c["ks"]), tuple(c["dil"]),
+                                    tuple(c["pad"]), tuple(c["st"]))
+
+    @staticmethod
+    def branch(c):
+        return "pad:asym" if c["pad"][0] != c["pad"][1] else "pad:sym"
+
+
+@fam("im2col", "attr", ["aten::im2col"])
+class _Im2Col:
+    @staticmethod
+    def gen(rng):
+        kern, dil, pad, st, hw, blocks = _gen_fold(rng)
+        return dict(shape=[rng.choice([1, 2]), rng.choice([1, 2])] + hw, dtype="f32", ks=kern, dil=dil, pad=pad, st=st)
+
+    @staticmethod
+    def line(c):
+        return f"im2col {sh(c['shape'])} {ints(c['ks'])} {ints(c['dil'])} {ints(c['pad'])} {ints(c['st'])}"
+
+    @staticmethod
+    def call(c):
+        return [fdata(c["shape"]), list(c["ks"]), list(c["dil"]), list(c["pad"]), list(c["st"])], {}
+
+    @staticmethod
+    def torch(c, t):
+        return t.nn.functional.unfold(t.tensor(fdata(c["shape"])), tuple(c["ks"]), tuple(c["dil"]), tuple(c["pad"]), tuple(c["st"]))
